@@ -343,8 +343,10 @@ class Check:
         reported_known = {}
         for f in self.failures:
             d = f.get("dev")
-            if d and d in known and known[d].get("status") == "known":
-                reported_known.setdefault(d, []).append(f)
+            parts = d.split("+") if d else []
+            if parts and all(p in known and known[p].get("status") == "known" for p in parts):
+                for p in parts:
+                    reported_known.setdefault(p, []).append(f)
             else:
                 viol.append(f)
         for d, fs in sorted(reported_known.items()):
